@@ -87,6 +87,10 @@ def enum_pipeline(run, prop, observe=False):
     res3, tr3, _ = stage_texts(run, texts, observe=observe, trace=True, name="repo_tests")
     stage_trace(run, tr3, name="trace_repo_tests")
     stage_judge_enum(run, res3, prop, name="judge_repo_tests")
+    # the value zoo: numbers in every spelling, schema / SQL / Go words, fmt verbs, quotes of every kind, NUL, long and non-ASCII
+    # values - in every position a value can stand in
+    resz, _, _ = stage_texts(run, zoo_texts() + fragment_texts(), observe=observe, name="zoo_texts")
+    stage_judge_enum(run, resz, prop, name="judge_zoo_texts")
     nrand = 20000 if run.tier == "quick" else 400000
     res4, _, _, _ = stage_enum(run, 0, FULL_ALPHABET, observe=observe, random=nrand, rlen=12, name="random_seqs")
     stage_judge_enum(run, res4, prop, name="judge_random")
@@ -118,10 +122,63 @@ def check_C06(run):
     trees_pipeline(run, "C06")
 
 
+VALUE_ZOO = [
+    # numbers in every spelling Go's or another language's number parser might take
+    "007", "010", "0100", "-017", "0x1f", "0X1F", "0b11", "0o17", "1_000", "1e3", "1E3", "1e+3", "1e-3", "2.5e-3", ".5", "5.", "00", "-0", "0.0", "1.50",
+    "9007199254740993", "9223372036854775807", "9223372036854775808", "99999999999999999999", "1e19", "1e400", "Infinity", "NaN", "nan", "inf", "0x1p-2",
+    # words that mean something to the JSON schema, to SQL or to Go
+    "left", "right", "operator", "min", "max", "inclusive", "distance", "power", "boundaries", "null", "NULL", "true", "false", "nil", "select", "LITERAL", "RANGE",
+    # characters that mean something to fmt, SQL, JSON, the lexer
+    "%", "100%", "a%c", "%d", "%s%s", "%!", "a\\", "\\", "a\\*", "a*", "a?b", "it's", "''", "\u201cx\u201d", "\u2019", "\u0000", "a\u0000b", "\u00e9t\u00e9", "\u65e5\u672c\u8a9e" * 7,
+    "\u65e5\u672c\u8a9e" * 7 + "\u0000", "x" * 47, "x" * 48, "x" * 49, "\u00e9" * 30, "x" * 300, "(", ")", "a(b", "a)b", "[", "]", "{", "a:b", "a=b", " ", "a b", ",", "a,b", "1,2",
+    "*", "?", "/", "/r/", "/a b/", "-", "--", "-a", "+", "~", "^", "<", ">=", "$1", "?1", ";", "--x", "/*", "\t", "\n", "\u00a0", "\ufffd", "\u0663", "e", "E1",
+]
+VALUE_ZOO = [v.encode("ascii").decode("unicode_escape") if "\\u" in v or v in ("\\t", "\\n") else v.replace("\\\\", "\\") for v in VALUE_ZOO]
+KEYWORDS = {"AND", "OR", "NOT", "TO"}
+
+
+def _escape_bare(v):
+    """Backslash before every character that is not a letter, digit or underscore (the escaping clause of C08)."""
+    return "".join(c if (c == "_" or c.isalnum()) else "\\" + c for c in v)
+
+
+def zoo_texts():
+    """Every value of the zoo in every position a value can stand in (field value, field name, range bound, list item, bare term,
+    comparison, under operators), written quoted, escaped and - where it is a number or a word - bare."""
+    out = []
+    for v in VALUE_ZOO:
+        spellings = []
+        if '"' not in v:
+            spellings.append('"' + v + '"')
+        if v and v.upper() not in KEYWORDS:
+            spellings.append(_escape_bare(v))
+        if v and all(c.isalnum() or c in "._+-" for c in v) and v.upper() not in KEYWORDS and not v.startswith(("-", "+")):
+            spellings.append(v)                      # typed as it stands: numbers in odd spellings, schema words
+        for s in dict.fromkeys(spellings):
+            out += ["f:" + s, s + ":x", "f:[" + s + " TO z]", "f:[a TO " + s + "]", "f:{" + s + " TO *}", "f:(" + s + " OR x)", "f:(x OR " + s + " OR y)",
+                    s, "NOT " + s, "f:" + s + " AND g:y", "g:y " + s, "f:>" + s, "f:<=" + s, s + "~", "f:" + s + "^2", s + ":[1 TO 2]", "-" + s + " +f:" + s]
+    return list(dict.fromkeys(out))
+
+
+FRAGMENTS = ["[1 TO 5]", "{1 TO *}", "[a TO b]", ":x", ":>5", "f:", "f:>", "f:>=", "f:[1 TO]", "f:[TO 5]", "f:[1 5]", "f:[1 TO 5", "f:1 TO 5]", "TO", "f:(", "()", "f:()", "~2", "^2", "~",
+             "a~b", "a^b", "a~-1", "a^-1", "a~1.5", "a:b:c", "(a:b):c", "(a b):c", "a:[b:c TO 5]", "a:[(b c) TO d]", "a:[NOT b TO c]", "a:[1 TO (b OR c)]", "a:(b)~", "a:b~", "a:b:c~",
+             "(a:b):>=5~3", "a AND", "AND a", "a OR OR b", "NOT", "+", "a +", "a -", "a:>=(b:c)", "a:<(b:[1 TO 2])", "a:(b:c:d)", "a:>(b c)", "a:(b OR c:d)", "a:(b^2 OR c)",
+             "a:(b~ OR c)", "a:(b OR c)^2", "a:(NOT b OR c)", "a:(+b OR c)", "a:(b* OR c)", "a:(\"b*\" OR c)", "a:(/r/ OR c)", "a:(1 OR 1)", "a:((b OR c) OR d)", "a:(b OR (c OR d))"]
+CONTEXTS = ["%s", "x:y AND %s", "%s AND x:y", "NOT %s", "-%s", "+%s", "(%s)", "x:y OR %s", "(x:y OR %s)^2", "%s~", "%s^3", "g:(%s)", "x:y %s", "%s x:y", "x:y AND (z:w OR NOT %s)"]
+
+
+def fragment_texts():
+    """Constructs that are not queries (a range without a field, a colon without a value, an operator without an operand ...) and
+    border-line ones, alone and under every operator: whatever the parser makes of them, it must make the same with and without a
+    default field (C11), return well-formed trees only (C10) that derive from the text (C06), and never panic (C01)."""
+    return list(dict.fromkeys(c % f for f in FRAGMENTS for c in CONTEXTS))
+
+
 def deep_malformed_texts():
     """Constructs that only expr.Validate rejects (a conjunction in a field position or as a range bound, ...) below k operator
     levels: a guard that stops looking at some depth would let them through."""
     bad = ["(a b):c", "a:[(b c) TO d]", "(a OR b):>5", "(a b):[1 TO 2]", "a:[1 TO (b OR c)]", "(a b):(c OR d)", "(NOT a):b"]
+    bad += [b + sfx for b in ("a:b:c", "(a:b):c", "(a:b):>=5", "(a:b):[1 TO 5]") for sfx in ("~", "~3", "^2", "")]
     out = []
     for k in (1, 3, 20, 63, 64, 65, 66, 100, 130, 200):   # TLC's JSON reader stops at 255 levels of nesting
         for b in bad:
